@@ -5,6 +5,7 @@ pub mod checks;
 pub mod driver;
 pub mod explore;
 pub mod monitors;
+pub mod replheap;
 pub mod resmon;
 pub mod scenarios;
 pub mod selectmon;
